@@ -311,6 +311,60 @@ func kStructural(x *vc.Exec, lr *vc.LoadResult, repo string, res *vc.PassResult,
 		}
 	}
 	sink.Structural("internal", "frame", "types-are-compared-by-identity-of-meaning-not-of-pointer", []string{"C14", "C02", "C11", "C13"}, true, fmt.Sprintf("%d functions scanned, %d pointer comparisons of types", len(fns), ncmp))
+	// C17: the Processor - the one object that lives across the files of a run -
+	// carries configuration only: no function of the module stores to one of its
+	// fields or updates a map / appends to a slice held in one, so nothing can
+	// be remembered from one file to the next.
+	nProcAcc := 0
+	for _, fn := range fns {
+		for _, b := range fn.Blocks {
+			for _, in := range b.Instrs {
+				fa, ok := in.(*ssa.FieldAddr)
+				if !ok {
+					continue
+				}
+				pt, ok := fa.X.Type().Underlying().(*types.Pointer)
+				if !ok {
+					continue
+				}
+				nt, ok := pt.Elem().(*types.Named)
+				if !ok || nt.Obj().Name() != "Processor" || nt.Obj().Pkg() == nil || nt.Obj().Pkg().Path() != "go.uber.org/cff/internal" {
+					continue
+				}
+				nProcAcc++
+				for _, r := range *fa.Referrers() {
+					bad := ""
+					switch r := r.(type) {
+					case *ssa.Store:
+						if r.Addr == fa {
+							if _, isAlloc := fa.X.(*ssa.Alloc); !isAlloc {
+								bad = "store to Processor." + ssaStructField(fa)
+							}
+						}
+					case *ssa.UnOp:
+						if r.Referrers() != nil {
+							for _, u := range *r.Referrers() {
+								switch u := u.(type) {
+								case *ssa.MapUpdate:
+									if u.Map == r {
+										bad = "update of the map in Processor." + ssaStructField(fa)
+									}
+								case *ssa.IndexAddr:
+									if u.X == r {
+										bad = "element access of Processor." + ssaStructField(fa)
+									}
+								}
+							}
+						}
+					}
+					if bad != "" {
+						sink.Structural(relName(fn), "determinism", "the-processor-keeps-no-state-between-files", []string{"C17"}, false, bad+" at "+pos(r))
+					}
+				}
+			}
+		}
+	}
+	sink.Structural("internal", "determinism", "the-processor-keeps-no-state-between-files", []string{"C17"}, true, fmt.Sprintf("%d accesses to Processor fields scanned", nProcAcc))
 	// C02 / C12: the id tables of the generators (typeIDs, nextTypeID, predIDs,
 	// nextPredID) are written only by their constructor and by typeID / predID,
 	// whose contracts keep them injective; no other function stores to the fields
